@@ -69,23 +69,70 @@ def documented(cfg, p, u, c, d):
     return out[sh:sh + h, sw:sw + w]
 
 
+class Recorder:
+    """wraps custom() and get_propagation_kernel() as the propagator module sees them and records, for every convolution the
+    IMPLEMENTATION performs, the field it was given, the kernel it used and what it returned, and every kernel request"""
+    def __init__(self):
+        import odak.learn.wave.propagators as PM
+        self.PM = PM; self.calls = []; self.requests = []
+        self.orig = (PM.custom, PM.get_propagation_kernel)
+        def custom(field, kernel, *a, **k):
+            out = self.orig[0](field, kernel, *a, **k)
+            self.calls.append((field.detach().clone(), kernel.detach().clone(), out.detach().clone()))
+            return out
+        def gpk(*a, **k):
+            self.requests.append((float(k.get('wavelength', float('nan'))), float(k.get('distance', float('nan')))))
+            return self.orig[1](*a, **k)
+        self.custom, self.gpk = custom, gpk
+    def __enter__(self):
+        self.PM.custom, self.PM.get_propagation_kernel = self.custom, self.gpk; return self
+    def __exit__(self, *a):
+        self.PM.custom, self.PM.get_propagation_kernel = self.orig
+
+
+def crop(y):
+    h, w = RES
+    if tuple(y.shape[-2:]) == (h, w): return y
+    sh, sw = (2 * h) // 2 - h // 2, (2 * w) // 2 - w // 2
+    return y[..., sh:sh + h, sw:sw + w]
+
+
+def dist(a, b):
+    a = a.reshape(-1).to(torch.complex128); b = b.reshape(-1).to(torch.complex128)
+    if a.shape != b.shape: return float('inf')
+    e = float((a - b).abs().max()) / max(1e-30, float(b.abs().max()))
+    return e if e == e else float('inf')
+
+
+def close(a, b, tol):
+    return dist(a, b) <= tol
+
+
+def nearest(x, table, tol):
+    """the entry of the table nearest to x, if within tol and strictly nearer than every other entry"""
+    ds = sorted((dist(x, v), i) for i, (k, v) in enumerate(table.items()))
+    if not ds or not ds[0][0] <= tol: return None
+    return list(table.keys())[ds[0][1]]
+
+
 def drive(cfg, ops):
-    """run the op sequence on ONE object; after each op record generated flags and outputs"""
-    import odak.learn.wave.propagators as PM
+    """run the op sequence on ONE object; after each op record generated flags, outputs, and (from the recorder) which kernel
+    and which input field the implementation actually used to produce each output"""
     p = make(cfg)
     rec = []
     for o in ops:
-        if o[0] == 'call':
-            _, d, c, fid = o
-            y = p(field(fid), c, d)
-            outs = [((d, c), ('f', fid), y)]
-        else:
-            _, fid = o
-            frames = cfg.get('frames', 1)
-            r = p.reconstruct(phases(fid, frames), get_complex=True)
-            outs = [((d, c), ('r', fid, fr, c), r[fr, d, c]) for fr in range(frames) for d in range(NDP) for c in range(NCH)]
+        with Recorder() as R:
+            if o[0] == 'call':
+                _, d, c, fid = o
+                y = p(field(fid), c, d)
+                outs = [((d, c), ('f', fid), y)]
+            else:
+                _, fid = o
+                frames = cfg.get('frames', 1)
+                r = p.reconstruct(phases(fid, frames), get_complex=True)
+                outs = [((d, c), ('r', fid, fr, c), r[fr, d, c]) for fr in range(frames) for d in range(NDP) for c in range(NCH)]
         flags = [int(bool(p.generated_kernels[d, c])) for d in range(NDP) for c in range(NCH)]
-        rec.append((flags, outs))
+        rec.append((flags, outs, R.calls, R.requests))
     return p, rec
 
 
@@ -101,7 +148,7 @@ def check_sequence(ctx, cfg, ops):
     p, rec = drive(cfg, ops)
     viol = 0
     # direct oracle: every output equals a fresh object's output and the documented pipeline
-    for (flags, outs), o in zip(rec, ops):
+    for (flags, outs, _calls, _reqs), o in zip(rec, ops):
         for (d, c), lab, y in outs:
             fresh = make(cfg)
             u = field(lab[1]) if lab[0] == 'f' else recon_field(cfg, fresh, lab[1], lab[2], lab[3])
@@ -115,6 +162,20 @@ def check_sequence(ctx, cfg, ops):
             e2 = float(np.abs(W.to_np(yf) - doc).max()) / max(1e-30, float(np.abs(doc).max()))
             if not e2 <= 5e-4:
                 ctx.violation('odak.learn.wave.propagator', 'equals_documented_model', inp, 'pad, fft2, kernel(lambda_c, z_d) once, aperture once, ifft2, crop', {'max_rel_diff': e2}); viol += 1
+    # 'back and forth' with a pure-phase kernel family (angular spectrum, Fresnel transfer function) = one forward propagation by the
+    # net distance z_d - image_location_offset (C06_Tie.traced_back_and_forth_is_net; the phases are additive in z: Wave_TieK as_add / tf_add)
+    if cfg['ptype'] == 'back and forth' and cfg['method'] in ('Angular Spectrum', 'Transfer Function Fresnel') and ops:
+        baf = make(cfg)
+        off = float(baf.image_location_offset)
+        fwd = make(dict(cfg, ptype='forward', explicit_distances=True, zs=[float(z) - off for z in baf.distances]))
+        fwd.image_location_offset = baf.image_location_offset
+        u = field(7)
+        for d in range(NDP):
+            for c in range(NCH):
+                a = baf(u, c, d); b = fwd(u, c, d)
+                e3 = float((a - b).abs().max()) / max(1e-30, float(b.abs().max()))
+                if not e3 <= 5e-3:
+                    ctx.violation('odak.learn.wave.propagator', 'back_and_forth_is_net_distance', {'cfg': cfg, 'ops': ops, 'at': [d, c, ['f', 7]]}, 'forward propagator by z_d - image_location_offset', {'max_rel_diff': e3}); viol += 1
     # model term for Coq: same ops with integer field ids
     def fid_of(lab):
         return lab[1] if lab[0] == 'f' else 500 + lab[1] * 20 + lab[2] * 4 + lab[3]
@@ -124,9 +185,57 @@ def check_sequence(ctx, cfg, ops):
             terms.append('Call Z (%d, %d)%%nat %d%%Z' % (o[1], o[2], o[3]))
         else:
             terms.append('Reconstruct Z %d %d %d (fun fr c => (%d + Z.of_nat fr * 4 + Z.of_nat c)%%Z)' % (cfg.get('frames', 1), NDP, NCH, 500 + o[1] * 20))
-    expected = []
-    for flags, outs in rec:
-        expected.append((flags, [(d * 10 + c) * 1000 + fid_of(lab) for (d, c), lab, _ in outs]))
+    # what the IMPLEMENTATION did, identified from the tensors it handled (not from the harness's labels): for each output, the
+    # recorded convolution that produced it, the key whose kernel that convolution used and the field it was applied to
+    fresh = make(cfg)
+    ref_k = {}
+    for d in range(NDP):
+        for c in range(NCH):
+            with Recorder() as R0:
+                fresh(field(0), c, d)
+            if R0.calls: ref_k[(d, c)] = R0.calls[-1][1]
+    cand = {}
+    for (flags, outs, calls, reqs) in rec:
+        for (d, c), lab, y in outs:
+            if tuple(lab) not in cand:
+                cand[tuple(lab)] = field(lab[1]) if lab[0] == 'f' else recon_field(cfg, fresh, lab[1], lab[2], lab[3])
+    expected, observed_ok, unident = [], True, 0
+    for flags, outs, calls, reqs in rec:
+        row = []
+        for (d, c), lab, y in outs:
+            hit = [cl for cl in calls if close(crop(cl[2]), y, 1e-6)]
+            if float(y.abs().max()) == 0.0:
+                # a channel whose laser power is 0 in this frame: zero field in, zero field out, nothing to identify
+                row.append((d * 10 + c) * 1000 + fid_of(lab)); unident += 1; continue
+            if not hit:
+                observed_ok = False; row.append((d * 10 + c) * 1000 + fid_of(lab)); continue
+            # (an all-zero output, e.g. a channel whose laser power is 0 in this frame, matches several convolutions: any of them may be the producer)
+            ids = []
+            for f_in, k_in, _ in hit:
+                key = nearest(k_in, ref_k, 1e-5)
+                fld = nearest(crop(f_in), cand, 1e-6)
+                ids.append((key[0] * 10 + key[1] if key else 99) * 1000 + (fid_of(fld) if fld else 999))
+            lab_id = (d * 10 + c) * 1000 + fid_of(lab)
+            row.append(lab_id if lab_id in ids else ids[0])
+        expected.append((flags, row))
+    if not observed_ok: ctx.log('note: some outputs could not be matched to a recorded convolution (custom is not called through the propagator module); harness labels used for them')
+    ctx.c06_observed = getattr(ctx, 'c06_observed', 0) + (sum(len(r) for _, r in expected) - unident) * (1 if observed_ok else 0)
+    # kernel requests: a hit asks for no kernel; a miss asks for the channel's wavelength (and, forward, the layer's distance)
+    seen = set()
+    for (flags, outs, calls, reqs), o in zip(rec, ops):
+        keys_o = [(o[1], o[2])] if o[0] == 'call' else [(d, c) for d in range(NDP) for c in range(NCH)]
+        miss = [kk for kk in dict.fromkeys(keys_o) if kk not in seen]
+        seen.update(keys_o)
+        if not reqs and miss and not observed_ok: continue
+        per = 1 if cfg['ptype'] == 'forward' else 2
+        want = sorted(float(cfg['lams'][c]) for (d, c) in miss for _ in range(per))
+        got = sorted(w for w, _ in reqs)
+        okreq = len(got) == len(want) and all(abs(a - b) <= 1e-9 * abs(b) for a, b in zip(got, want))
+        if okreq and cfg['ptype'] == 'forward':
+            wd = sorted(float(fresh.distances[d]) for (d, c) in miss); gd = sorted(z for _, z in reqs)
+            okreq = all(abs(a - b) <= 1e-6 * max(1.0, abs(b)) for a, b in zip(gd, wd))
+        if not okreq:
+            ctx.violation('odak.learn.wave.propagator', 'kernel_requests', {'cfg': cfg, 'ops': ops, 'at': list(o)}, 'kernels are requested exactly for the missing (depth, channel) keys, with that channel\'s wavelength and that layer\'s distance', {'requests': reqs, 'missing_keys': miss}); viol += 1
     return 'obs %s' % listlit(terms), expected, viol
 
 
@@ -146,7 +255,7 @@ def gen_cfg(rng, i):
     z = rng.uniform(2, 20)
     lam2 = lam * rng.uniform(1.1, 1.4)
     # the pitch respects dx >= lambda / sqrt 2 for BOTH wavelengths (otherwise the angular-spectrum kernels have NaN pixels)
-    return {'method': method, 'ptype': ['forward', 'back and forth'][(i // 2) % 2], 'lams': [lam, lam2], 'dx': lam2 * rng.uniform(0.75, 4),
+    return {'method': method, 'ptype': ['forward', 'back and forth'][(i // 4) % 2], 'lams': [lam, lam2], 'dx': lam2 * rng.uniform(0.75, 4),
             'zs': [z, z + rng.uniform(1, 5)], 'zm': rng.uniform(5, 30), 'aperture': ['none', 'grey', 'binary', 'complex'][(i // 3) % 4],
             'aseed': rng.randrange(10 ** 6), 'frames': 1 + (i % 3 == 2), 'explicit_distances': i % 5 == 0}
 
@@ -209,7 +318,7 @@ def run(ctx):
         if got != [(list(f), list(o)) for f, o in e]:
             bad += 1
             if bad <= 3: ctx.log('state machine and implementation disagree on', ops, 'model', got, 'implementation', e)
-    ctx.obligation('correspondence:cache-state-machine(model in Coq = implementation bookkeeping and output labelling on %d sequences)' % len(seqs), bad == 0, '%d disagreements' % bad)
+    ctx.obligation('correspondence:cache-state-machine(model in Coq = implementation: generated flags, and for %d outputs the (key of the kernel used, field convolved) identified from the tensors the implementation handled, on %d sequences)' % (getattr(ctx, 'c06_observed', 0), len(seqs)), bad == 0 and getattr(ctx, 'c06_observed', 0) > 0, '%d disagreements' % bad)
 
 
 def search(ctx):
